@@ -41,6 +41,8 @@ var outPath string
 
 var progFD = -1
 
+var soakCalls = 70000
+
 // progress appends one line to the progress file (a crashed process leaves it behind)
 func progress(s string) {
 	if progFD >= 0 {
@@ -98,6 +100,7 @@ func main() {
 	wantSigs := fs.Bool("sigs", false, "include every run signature in the result")
 	budgetMs := fs.Int64("budget-ms", 0, "stop after this much wall time (0 = none)")
 	clock := fs.Bool("clock", false, "the library reads the (simulated) clock: inject clock jumps")
+	fs.IntVar(&soakCalls, "soak", 70000, "oracle -order soak: number of calls to make in the one process")
 	progPath := fs.String("progress", "", "progress file (one line per started call / run) for post-mortem of a crashed process")
 	fs.StringVar(&outPath, "out", "", "result file")
 	fs.Parse(os.Args[2:])
@@ -184,6 +187,20 @@ func runOracle(c *proto.Corpus, order, ids string, seed uint64, free bool) {
 			j := r.n(i + 1)
 			sel[i], sel[j] = sel[j], sel[i]
 		}
+	case "soak":
+		// long-lived process: cycle through the calls (each cycle in another seeded order)
+		// until soakCalls calls have been made in this one process
+		r := &rnd{mix(seed, 0x50a6)}
+		base := append([]int{}, sel...)
+		sel = sel[:0]
+		for len(sel) < soakCalls {
+			for i := len(base) - 1; i > 0; i-- {
+				j := r.n(i + 1)
+				base[i], base[j] = base[j], base[i]
+			}
+			sel = append(sel, base...)
+		}
+		sel = sel[:soakCalls]
 	default:
 		die("bad order")
 	}
